@@ -1,8 +1,8 @@
 /-
 C20 helper: the driver's concrete lexer `jsonLex` tokenises a framed document "[" e1 "," e2 … "]" into
 "[", one value per element, "]" — proved here for scalar elements (numbers, true/false/null: no delimiter, white
-space, quote, bracket or colon inside).  For string and nested elements the lexer is validated by the
-correspondence run only.
+space, quote, bracket or colon inside).  String and nested elements (every well-formed JSON text, white space
+anywhere): `Proofs/JsonScanLemmas.lean`, which builds on the scalar lemmas here.
 -/
 import ShpanVerif.Model.JsonFrame
 
